@@ -393,6 +393,10 @@ class ExprMixin:
                 raise Unsupported("structural == on lists", node)
             if a.kind == FN and b.kind == FN:
                 return z3.BoolVal(self.same_fn(a.term, b.term))
+            if (a.kind == FN) != (b.kind == FN):
+                ta, tb = self.as_type(a), self.as_type(b)
+                if ta is not None and tb is not None:
+                    return ta.term == tb.term
             return ops.same_value(a, b)
         if isinstance(op, (ast.IsNot, ast.NotEq)):
             return z3.Not(self.compare(ast.Eq() if isinstance(op, ast.NotEq) else ast.Is(), a, b, st, node))
@@ -405,6 +409,24 @@ class ExprMixin:
             _, ta, tb = ops.num_join(a, b)
             return ops.CMP[type(op)](ta, tb)
         raise Unsupported("comparison operator", node)
+
+    TYPE = Opaque("Type")
+    _type_consts: dict = {}
+
+    def as_type(self, v: V):
+        """Python type objects (builtin types, classes of the class table) as constants of the opaque sort Type."""
+        if isinstance(v.kind, Opaque) and v.kind.sname == "Type":
+            return v
+        if v.kind == FN and v.term.tag in ("builtin", "class", "exc"):
+            name = v.term.name if v.term.tag == "builtin" else v.term.cls
+            if name not in ExprMixin._type_consts:
+                ExprMixin._type_consts[name] = z3.Const("type_" + name, self.TYPE.sort())
+            cs = list(ExprMixin._type_consts.values())
+            if len(cs) > 1:
+                ax = z3.Distinct(*cs)
+                self.axioms[:] = [a for a in self.axioms if not (z3.is_distinct(a) and a.num_args() and str(a.arg(0)).startswith("type_"))] + [ax]
+            return V(self.TYPE, ExprMixin._type_consts[name])
+        return None
 
     def same_fn(self, a, b):
         if a.tag != b.tag:
@@ -434,6 +456,11 @@ class ExprMixin:
             return self.dhas(st, container, x)
         if isinstance(container.kind, Tup):
             return z3.Or([ops.same_value(x, y) for y in container.term]) if container.term else z3.BoolVal(False)
+        c = self.method_contract(container, "__contains__")
+        if c is not None:
+            outs = list(self.apply_contract(c, [container, x], {}, st, node))
+            if len(outs) == 1:
+                return self.truth(outs[0][0], st)
         raise Unsupported(f"membership in {container.kind}", node)
 
     def ev_BoolOp(self, e, st):
@@ -638,8 +665,10 @@ class ExprMixin:
         for c in gen.ifs:
             cv = self.ev_pure(c, sub)
             conds.append(self.truth(cv, sub))
+        cond_facts = list(sub.pc[base_pc:])  # learned while evaluating the filter: hold for every index in range
         if conds:
             sub.assume(z3.And(conds))
+        base_pc = len(sub.pc) - (1 if conds else 0)
         self.in_comprehension += 1
         self.comp_oracle_stack.append([])
         try:
@@ -691,6 +720,8 @@ class ExprMixin:
         outarr = z3.Lambda([j], at(idx(j)))
         res = self.new_list(st, ek, m, outarr, oneshot=oneshot)
         st.assume(z3.And(m >= 0, m <= n))
+        for f in cond_facts:
+            st.assume(z3.ForAll([k], z3.Implies(guard, f)))
         st.assume(z3.ForAll([j], z3.Implies(z3.And(0 <= j, j < m), z3.And(0 <= idx(j), idx(j) < n, cond_at(idx(j)), pos(idx(j)) == j))))
         st.assume(z3.ForAll([j, j2], z3.Implies(z3.And(0 <= j, j < j2, j2 < m), idx(j) < idx(j2))))
         st.assume(z3.ForAll([k], z3.Implies(z3.And(guard, cond), z3.And(0 <= pos(k), pos(k) < m, idx(pos(k)) == k))))
